@@ -67,33 +67,9 @@ type Scenario struct {
 
 // byte strings are bound once per case (let b0 := hx "..." in ...): parsing string literals
 // dominates the cost of evaluating a case file
-type byteTable struct {
-	names map[string]string
-	defs  []string
-}
+var em *syncrig.Emitter
 
-var bt = &byteTable{names: map[string]string{}}
-
-func (t *byteTable) reset() { t.names, t.defs = map[string]string{}, nil }
-func (t *byteTable) wrap(term string) string {
-	if len(t.defs) == 0 {
-		return term
-	}
-	return "(" + strings.Join(t.defs, " ") + " " + term + ")"
-}
-func cB(b []byte) string {
-	if len(b) < 8 {
-		return vh.CBytes(b)
-	}
-	k := string(b)
-	if n, ok := bt.names[k]; ok {
-		return n
-	}
-	n := fmt.Sprintf("b%d", len(bt.names))
-	bt.names[k] = n
-	bt.defs = append(bt.defs, "let "+n+" := "+vh.CBytes(b)+" in")
-	return n
-}
+func cB(b []byte) string { return em.B(b) }
 
 func cBig(x *big.Int) string { return vh.CBigZ(x) }
 func cU64(x uint64) string  { return vh.CBigZ(new(big.Int).SetUint64(x)) }
@@ -394,7 +370,6 @@ func (w *world) runScenario(sc *Scenario) int {
 		}
 		// ---- correspondence case
 		id := run.NextID()
-		bt.reset()
 		hashes := map[uint64]bool{hb.Number: true}
 		for _, n := range []int64{pre.Number, post.Number, pre.Number + 1, int64(hb.Number) - 1} {
 			if n >= 0 && n < int64(len(branch)) {
@@ -462,7 +437,7 @@ func (w *world) runScenario(sc *Scenario) int {
 		if si == len(sc.Steps)-1 || len(sc.Steps) <= 3 {
 			js["scenario"] = sc // a mismatch at an earlier step: the same seed regenerates scenario_no
 		}
-		run.AddCase(id, bt.wrap(term), js, canon(sc, si), nontrivial)
+		em.Add(id, term, js, canon(sc, si), nontrivial)
 
 		// ---- oracle
 		if !post.Present {
@@ -627,7 +602,7 @@ func runRanges(run *vh.Run, sc *Scenario) {
 		xs[i] = vh.CPair(cU64(g[0]), cU64(g[1]))
 	}
 	run.Dist[fmt.Sprintf("ranges:n=%d", min(len(got), 5))]++
-	run.AddCase(id, vh.CApp("CRanges", vh.CN(id), cU64(s), cU64(e), cU64(r), vh.CList(xs)), sc, fmt.Sprint(sc.Ranges), len(got) >= 2)
+	em.Add(id, vh.CApp("CRanges", vh.CN(id), cU64(s), cU64(e), cU64(r), vh.CList(xs)), sc, fmt.Sprint(sc.Ranges), len(got) >= 2)
 }
 
 func rangesCase(s, e, r uint64) *Scenario {
@@ -923,6 +898,8 @@ func forcedScenarios() []*Scenario {
 func main() {
 	run := vh.Start("Verif.Corr.C15", 60)
 	defer run.Finish()
+	em = syncrig.NewEmitter(run, 60, "")
+	defer em.Close()
 	run.Rule = "one case per Sync call of a real syncer (registry / multi-event with the registration processor / sequencer) on ethfake+pgfake, plus GetSyncRanges calls; non-trivial = the scenario has had a detected reorganisation and stored events by then; distinct by the scenario prefix up to the step"
 	rig, err := syncrig.New(run.Repo)
 	if err != nil {
